@@ -211,14 +211,27 @@ pub fn observe_subdir(repo: &Repo, fmt: &str, dashc: bool) -> Value {
 
 /// observe from a linked work tree detached at commit c (`.git` is a file there)
 pub fn observe_linked(repo: &Repo, fmt: &str, c: usize) -> Value {
+    observe_linked_on(repo, fmt, c, None)
+}
+
+/// ... or on a branch of its own, created for the observation at commit c and deleted afterwards
+pub fn observe_linked_on(repo: &Repo, fmt: &str, c: usize, branch: Option<&str>) -> Value {
     let wt = repo.dir.with_extension(format!("wt{c}"));
     let _ = std::fs::remove_dir_all(&wt);
     let h = repo.hashes[c - 1].clone();
-    if let Err(e) = repo.git(&["worktree", "add", "-q", "--detach", &wt.to_string_lossy(), &h], None) {
+    let p = wt.to_string_lossy().to_string();
+    let added = match branch {
+        None => repo.git(&["worktree", "add", "-q", "--detach", &p, &h], None),
+        Some(b) => repo.git(&["worktree", "add", "-q", "-b", b, &p, &h], None),
+    };
+    if let Err(e) = added {
         return json!({"kind": "harness", "text": e});
     }
     let o = observe_at(repo, fmt, &wt);
     let _ = repo.git(&["worktree", "remove", "--force", &wt.to_string_lossy()], None);
+    if let Some(b) = branch {
+        let _ = repo.git(&["branch", "-D", "-q", b], None);
+    }
     let _ = std::fs::remove_dir_all(&wt);
     let _ = repo.git(&["worktree", "prune"], None);
     o
@@ -496,9 +509,10 @@ pub fn record(args: &[String]) {
                 0 => events.push(json!({"k": "observe", "fmt": fmt, "wt": "clean", "at": 0, "where": "subdir", "obs": observe_subdir(&repo, fmt, false)})),
                 1 => {
                     let c = rng.gen_range(1..=repo.hashes.len());
-                    let o = observe_linked(&repo, fmt, c);
+                    let wb = if rng.gen_bool(0.5) { Some("wt/own-branch") } else { None };
+                    let o = observe_linked_on(&repo, fmt, c, wb);
                     if o["kind"] != "harness" {
-                        events.push(json!({"k": "observe", "fmt": fmt, "wt": "clean", "at": c, "where": "linked", "obs": o}));
+                        events.push(json!({"k": "observe", "fmt": fmt, "wt": "clean", "at": c, "wbranch": wb.unwrap_or(""), "where": "linked", "obs": o}));
                     }
                 }
                 _ => {
